@@ -82,6 +82,9 @@ def draw_table(rng, config):
     if rng.random() < 0.15:
         # characters that some tools treat as "not data": NUL, the byte order mark, the DOS end-of-file mark
         alphabet += ["\x00", "\ufeff", "\x1a"]
+    if rng.random() < 0.15:
+        # text that is not in Unicode normal form C is text all the same: a letter with a combining mark, the Angstrom sign
+        alphabet += ["u\u0308", "\u212b", "\u1100\u1161"]
     table = []
     columns = rng.randint(1, 4)
     for _ in range(rng.randint(0, 5)):
